@@ -2,6 +2,7 @@
 Model: coq/Model/Respond.v; theorems coq/Props/C03.v; correspondence through the real ServiceRegistry + QueryHandler.async_response."""
 import json
 
+from lib.fakemsg import FakeIncoming
 from lib import cachesim, common
 from lib.cachesim import rec, coq_rec
 from lib.common import cz, ctext, cbool, clist
@@ -235,19 +236,13 @@ def observe(case):
     class Msg:
         pass
     for t, recs in case['cache']:
-        m = Msg()
-        m.now = t
-        objs = [cachesim.mk(dict(r, created=t)) for r in recs]
-        m.answers = lambda objs=objs: objs
+        m = FakeIncoming(answers=[cachesim.mk(dict(r, created=t)) for r in recs], now=t, flags=0x8400)
         rm.async_updates_from_response(m)
     msgs = []
     for md in case['msgs']:
-        m = Msg()
-        m._questions = [cachesim.mk(q) for q in md['questions']]
-        m.now = md['now']
-        ans = [cachesim.mk(dict(r, created=md['now'])) for r in md['answers']]
-        m.answers = lambda ans=ans: ans
-        m.is_probe = lambda p=md['is_probe']: p
+        m = FakeIncoming(questions=[cachesim.mk(q) for q in md['questions']],
+                         answers=[cachesim.mk(dict(r, created=md['now'])) for r in md['answers']],
+                         now=md['now'], is_probe=md['is_probe'])
         msgs.append(m)
     qh = QueryHandler(zc)
     qa = qh.async_response(msgs, case['ucast_source'])
